@@ -132,17 +132,14 @@ Definition cp_to_unfolded_from (v : res (list nat * nat)) (w : option (tensor F)
 Definition cp_to_unfolded (w : option (tensor F)) (fs : list (tensor F)) (mode : nat) : res (tensor F) :=
   cp_to_unfolded_from (validate_cp w fs) w fs mode.
 
-(* cp_to_unfolded(cp_tensor, mode) with a NEGATIVE mode = -k, as the code behaves: an order-1 tensor accepts -1 explicitly; otherwise
-   factors[mode] is Python's negative indexing (factor N - k, IndexError if k > N) but khatri_rao(factors, skip_matrix=mode) compares
-   the negative number with the positions 0..N-1 and skips NOTHING: the result has prod of ALL sizes columns *)
+(* cp_to_unfolded(cp_tensor, mode) with a NEGATIVE mode = -k (repo b8d05d5): an order-1 tensor accepts -1; otherwise the mode must lie
+   in [-order, order) -- order = length of the validator's shape -- and is normalised (mode % order) before factors[mode] and
+   khatri_rao(skip_matrix=mode) *)
 Definition cp_to_unfolded_from_neg (v : res (list nat * nat)) (w : option (tensor F)) (fs : list (tensor F)) (k : nat) : res (tensor F) :=
   rbind v (fun sr =>
     if length (fst sr) =? 1 then
       (if k =? 1 then rbind (cp_to_tensor_from v w fs None) (fun t => reshape_spec [None; Some 1] t) else Err)
-    else let fs := as_matrices fs in
-    if negb (all_2d fs) then Err
-    else if (1 <=? k) && (k <=? length fs) then
-      rbind (khatri_rao fs) (fun K => mdot (opt_scale w (nth (length fs - k) fs (mk [] []))) (mT K))
+    else if (1 <=? k) && (k <=? length (fst sr)) then cp_to_unfolded_from v w fs (length (fst sr) - k)
     else Err).
 Definition cp_to_unfolded_neg (w : option (tensor F)) (fs : list (tensor F)) (k : nat) : res (tensor F) :=
   cp_to_unfolded_from_neg (validate_cp w fs) w fs k.
@@ -238,7 +235,8 @@ Definition tt_step (full factor : tensor F) : res (tensor F) :=
 Fixpoint tt_loop (full : tensor F) (rest : list (tensor F)) : res (tensor F) :=
   match rest with [] => Ok full | f :: r => rbind (tt_step full f) (fun full' => tt_loop full' r) end.
 
-Definition tt_to_tensor (cores : list (tensor F)) : res (tensor F) :=
+(* the reshape / dot chain of tt_to_tensor (all of tt_to_tensor before repo 8b25fc6) *)
+Definition tt_to_tensor_raw (cores : list (tensor F)) : res (tensor F) :=
   match cores with
   | [] => Err
   | fa :: rest =>
@@ -247,10 +245,18 @@ Definition tt_to_tensor (cores : list (tensor F)) : res (tensor F) :=
     rbind (reshape_spec [Some (hd 0 full_shape); None] fa) (fun full =>
     rbind (tt_loop full rest) (fun full' => reshape_spec (map Some full_shape) full')))
   end.
+(* tt_to_tensor(factors): _validate_tt_tensor(factors) first (repo 8b25fc6), then the chain.  v is the validator's answer: recomputed
+   from a list of cores, the cached (shape, rank) for a TTTensor object *)
+Definition tt_to_tensor_from (v : res (list nat * list nat)) (cores : list (tensor F)) : res (tensor F) :=
+  rbind v (fun _ => tt_to_tensor_raw cores).
+Definition tt_to_tensor (cores : list (tensor F)) : res (tensor F) := tt_to_tensor_from (validate_tt cores) cores.
+Definition tt_to_unfolded_from v cores (mode : nat) := rbind (tt_to_tensor_from v cores) (fun t => unfold zero t mode).
+Definition tt_to_vec_from v cores := rbind (tt_to_tensor_from v cores) tensor_to_vec.
 Definition tt_to_unfolded cores (mode : nat) := rbind (tt_to_tensor cores) (fun t => unfold zero t mode).
 Definition tt_to_vec cores := rbind (tt_to_tensor cores) tensor_to_vec.
 
-Definition tr_to_tensor (cores : list (tensor F)) : res (tensor F) :=
+(* the reshape / moveaxis / dot closure of tr_to_tensor (all of tr_to_tensor before repo 8b25fc6) *)
+Definition tr_to_tensor_raw (cores : list (tensor F)) : res (tensor F) :=
   match cores with
   | [] => Err
   | fa :: rest =>
@@ -266,6 +272,9 @@ Definition tr_to_tensor (cores : list (tensor F)) : res (tensor F) :=
     rbind (reshape_spec [None; Some (last full_shape 0)] (moveaxis zero fl 2 1)) (fun facm =>
     rbind (mdot fullm facm) (fun P => reshape_spec (map Some full_shape) P)))))))))
   end.
+(* tr_to_tensor(factors): _validate_tr_tensor(factors) first (repo 8b25fc6; that validator has no wrapper shortcut: a TRTensor is
+   re-validated from its stored cores) *)
+Definition tr_to_tensor (cores : list (tensor F)) : res (tensor F) := rbind (validate_tr cores) (fun _ => tr_to_tensor_raw cores).
 Definition tr_to_unfolded cores (mode : nat) := rbind (tr_to_tensor cores) (fun t => unfold zero t mode).
 Definition tr_to_vec cores := rbind (tr_to_tensor cores) tensor_to_vec.
 
@@ -337,7 +346,7 @@ Fixpoint ein_chain (cs : list (tensor F)) (ds : list (nat * nat * nat * nat)) (i
       fsumn (label_size x ds') (fun c => get zero G [bidx (d4a x) a; i; o; bidx (d4e x) c] *f ein_chain cs' ds' ios' c)
   | _, _, _ => one
   end.
-Definition ttm_to_tensor_einsum (cores : list (tensor F)) : res (tensor F) :=
+Definition ttm_to_tensor_einsum_raw (cores : list (tensor F)) : res (tensor F) :=
   match cores with
   | [] => Err
   | _ =>
@@ -350,6 +359,11 @@ Definition ttm_to_tensor_einsum (cores : list (tensor F)) : res (tensor F) :=
       Ok (transpose zero order (tabulate full_shape (fun idx => fsumn r0 (fun a => ein_chain cores ds idx a))))
     else Err)
   end.
+(* since repo 8b25fc6 the einsum route first checks: every core 4-D, left rank of core 0 is 1, consecutive ranks equal, last rank 1
+   -- the conditions of _validate_tt_matrix, on the stored cores -- so the broadcasting / summed-boundary cases of the raw einsum are
+   no longer reachable *)
+Definition ttm_to_tensor_einsum (cores : list (tensor F)) : res (tensor F) :=
+  rbind (validate_ttm cores) (fun _ => ttm_to_tensor_einsum_raw cores).
 Definition ttm_to_matrix_einsum (cores : list (tensor F)) : res (tensor F) :=
   rbind (all_shape4 cores) (fun ds =>
   rbind (ttm_to_tensor_einsum cores) (fun t => reshape_spec [Some (prod (map d4b ds)); None] t)).
@@ -417,10 +431,7 @@ Definition cp_to_unfolded_from_neg_einsum (v : res (list nat * nat)) (w : option
   rbind v (fun sr =>
     if length (fst sr) =? 1 then
       (if k =? 1 then rbind (cp_to_tensor_from_einsum v w fs None) (fun t => reshape_spec [None; Some 1] t) else Err)
-    else let fs := as_matrices fs in
-    if negb (all_2d fs) then Err
-    else if (1 <=? k) && (k <=? length fs) then
-      rbind (kr_einsum fs None) (fun K => mdot (opt_scale w (nth (length fs - k) fs (mk [] []))) (mT K))
+    else if (1 <=? k) && (k <=? length (fst sr)) then cp_to_unfolded_from_einsum v w fs (length (fst sr) - k)
     else Err).
 Definition cp_to_vec_from_einsum v (w : option (tensor F)) (fs : list (tensor F)) : res (tensor F) :=
   rbind (cp_to_tensor_from_einsum v w fs None) tensor_to_vec.
@@ -451,8 +462,8 @@ Definition tucker_to_unfolded_einsum core fs (mode : nat) skip tr :=
   rbind (tucker_to_tensor_einsum core fs skip tr) (fun t => unfold zero t mode).
 Definition tucker_to_vec_einsum core fs skip tr := rbind (tucker_to_tensor_einsum core fs skip tr) tensor_to_vec.
 
-(* What np.einsum REALLY does with the operands of the einsum multi_mode_dot when they do not fit (the route does not validate
-   them): a label must have one size across the operands, size-1 occurrences being BROADCAST; core modes beyond the last factor are
+(* The einsum multi_mode_dot on ANY 2-D operands: since repo 8b25fc6 the contracted dimension of every operand must equal the size
+   of its core mode (before, np.einsum broadcast size-1 dimensions); core modes beyond the last factor are
    kept; a factor that is not skipped, beyond the last core mode is an IndexError.  `ein_tk_dims_b` returns (result shape, label sizes);
    on operands whose shapes agree exactly this is the model above (Proofs18: tucker_einsum_b_extends). *)
 Definition ein_skipped (skip : option nat) (k : nat) : bool := match skip with Some s => s =? k | None => false end.
@@ -465,9 +476,8 @@ Fixpoint ein_tk_dims_b (k : nat) (skip : option nat) (cs : list nat) (Ms : list 
   | M :: Ms', [] => if ein_skipped skip k then ein_tk_dims_b (S k) skip [] Ms' else Err
   | M :: Ms', c :: cs' =>
       if ein_skipped skip k then rbind (ein_tk_dims_b (S k) skip cs' Ms') (fun nl => Ok (c :: fst nl, c :: snd nl))
-      else if (ndim M =? 2) && ((ncols M =? c) || (ncols M =? 1) || (c =? 1))
-           then rbind (ein_tk_dims_b (S k) skip cs' Ms') (fun nl =>
-                  Ok (nrows M :: fst nl, (if ncols M =? 1 then c else ncols M) :: snd nl))
+      else if (ndim M =? 2) && (ncols M =? c)
+           then rbind (ein_tk_dims_b (S k) skip cs' Ms') (fun nl => Ok (nrows M :: fst nl, c :: snd nl))
            else Err
   end.
 Fixpoint ein_tk_prod_b (k : nat) (skip : option nat) (Ms : list (tensor F)) (is js : list nat) : F :=
